@@ -537,6 +537,12 @@ pub struct SrvFinCase {
     /// and the end arrive in one piece, the end is processed while the server is still dialling
     #[serde(default)]
     pub early_fin: bool,
+    /// a quiet period of this many seconds in the middle of the transfer: between the two halves of
+    /// the client's upload (orders in which the client uploads; nothing flows in either direction
+    /// meanwhile), or between the two halves of the target's reply (TargetCloses). An open stream
+    /// may be silent for as long as it likes; what is sent after the silence still arrives before the end.
+    #[serde(default)]
+    pub quiet_s: u8,
 }
 
 pub struct SrvFinFam;
@@ -546,7 +552,16 @@ impl Family for SrvFinFam {
     fn name(&self) -> &'static str {
         "srv_fin"
     }
-    fn strategy(&self, _tier: Tier) -> BoxedStrategy<SrvFinCase> {
+    fn fixed_cases(&self, _tier: Tier) -> Vec<SrvFinCase> {
+        // 31 s of silence in the middle of a transfer, in either direction
+        vec![
+            SrvFinCase { order: SrvOrder::ClientFirst, up: 2000, down: 0, by_session_close: false, frame: 1000, early_fin: false, quiet_s: 31 },
+            SrvFinCase { order: SrvOrder::TargetHalfCloseThenClient, up: 2000, down: 100, by_session_close: false, frame: 1000, early_fin: false, quiet_s: 31 },
+            SrvFinCase { order: SrvOrder::TargetCloses, up: 0, down: 2000, by_session_close: false, frame: 1000, early_fin: false, quiet_s: 31 },
+        ]
+    }
+    fn strategy(&self, tier: Tier) -> BoxedStrategy<SrvFinCase> {
+        let quiet = if tier == Tier::Thorough { prop_oneof![60 => Just(0u8), 1 => Just(4u8), 1 => Just(11), 1 => Just(31), 1 => Just(61)].boxed() } else { prop_oneof![60 => Just(0u8), 1 => Just(4u8), 1 => Just(11)].boxed() };
         let amount = weighted_sizes(vec![(2, 0..=0), (3, 1..=100), (2, 8191..=8193), (2, 65534..=65537), (1, 300_000..=300_000), (1, 3_000_000..=3_000_000)]);
         (
             prop_oneof![3 => Just(SrvOrder::TargetHalfCloseThenClient), 2 => Just(SrvOrder::ClientFirst), 2 => Just(SrvOrder::TargetCloses), 1 => Just(SrvOrder::ClientFinThenReply)],
@@ -555,12 +570,16 @@ impl Family for SrvFinFam {
             proptest::bool::weighted(0.3),
             prop_oneof![Just(1usize), Just(1000), Just(16384), Just(65535)],
             proptest::bool::weighted(0.4),
+            quiet,
         )
-            .prop_map(|(order, up, down, by_session_close, frame, early_fin)| SrvFinCase { early_fin: early_fin && order == SrvOrder::ClientFirst && !by_session_close, order, up, down, by_session_close, frame })
+            .prop_map(|(order, up, down, by_session_close, frame, early_fin, quiet_s)| {
+                let early_fin = early_fin && order == SrvOrder::ClientFirst && !by_session_close && quiet_s == 0;
+                SrvFinCase { early_fin, quiet_s: if order == SrvOrder::ClientFinThenReply { 0 } else { quiet_s }, order, up, down, by_session_close, frame }
+            })
             .boxed()
     }
     fn case_budget_s(&self) -> u64 {
-        120
+        240
     }
     fn run(&self, case: &SrvFinCase, cx: &CaseCtx) -> CaseResult {
         let mut out = Outcome::new();
@@ -575,6 +594,7 @@ impl Family for SrvFinFam {
                 let mode = match case.order {
                     SrvOrder::TargetHalfCloseThenClient => TargetMode::SendThenShutdown(down.clone()),
                     SrvOrder::ClientFirst => TargetMode::Sink,
+                    SrvOrder::TargetCloses if case.quiet_s > 0 => TargetMode::SendPauseSendThenClose(down[..down.len() / 2].to_vec(), case.quiet_s as u64 * 1000, down[down.len() / 2..].to_vec()),
                     SrvOrder::TargetCloses => TargetMode::SendThenClose(down.clone()),
                     SrvOrder::ClientFinThenReply => TargetMode::ReplyAfterThenClose(case.up.max(1), down.clone()),
                 };
@@ -632,12 +652,22 @@ impl Family for SrvFinFam {
                 let expect_down = case.order != SrvOrder::ClientFirst;
                 if expect_down {
                     // P2 towards the client: every byte the target sent before it (half-)closed arrives
-                    let deadline = tokio::time::Instant::now() + Duration::from_secs(30);
+                    let quiet_down = if case.order == SrvOrder::TargetCloses { case.quiet_s as u64 } else { 0 };
+                    let deadline = tokio::time::Instant::now() + Duration::from_secs(30 + quiet_down);
                     while data_seen(&cl).len() < down.len() && tokio::time::Instant::now() < deadline && !cl.eof {
                         cl.drain(200).await;
                     }
                     let got = data_seen(&cl);
-                    ensure!(got == down, "C08.P2", "the target sent {} bytes and then {:?}; the client received {} of them{}", down.len(), case.order, got.len(), if got.len() == down.len() { " (altered)" } else { "" });
+                    ensure!(
+                        got == down,
+                        "C08.P2",
+                        "the target sent {} bytes{} and then {:?}; the client received {} of them{}",
+                        down.len(),
+                        if quiet_down > 0 { format!(" (with {quiet_down} s of silence after the first half)") } else { String::new() },
+                        case.order,
+                        got.len(),
+                        if got.len() == down.len() { " (altered)" } else { "" }
+                    );
                 }
                 match case.order {
                     SrvOrder::TargetCloses => {
@@ -658,6 +688,16 @@ impl Family for SrvFinFam {
                         // the client sends `up` and finishes
                         if !early {
                             let mut frames: Vec<RFrame> = up.chunks(case.frame.max(1)).map(|c| RFrame::new(rc::PSH, SID, c.to_vec())).collect();
+                            if case.quiet_s > 0 && frames.len() >= 2 {
+                                // first half, silence, then the rest and the end
+                                let rest = frames.split_off(frames.len() / 2);
+                                cl.send(&frames).await.map_err(|e| Fail::plain("C08.P3", format!("the server stopped reading from the client ({e}) although only the target had finished")))?;
+                                let until = tokio::time::Instant::now() + Duration::from_secs(case.quiet_s as u64);
+                                while tokio::time::Instant::now() < until && !cl.eof {
+                                    cl.drain(500).await;
+                                }
+                                frames = rest;
+                            }
                             if !case.by_session_close {
                                 frames.push(RFrame::ctl(rc::FIN, SID));
                             }
@@ -688,8 +728,9 @@ impl Family for SrvFinFam {
                         ensure!(
                             ok && got == up,
                             "C08.P2",
-                            "the client sent {} bytes and {how} ({:?}); the target received {} of them{}",
+                            "the client sent {} bytes{} and {how} ({:?}); the target received {} of them{}",
                             up.len(),
+                            if case.quiet_s > 0 { format!(" (with {} s of silence after the first half)", case.quiet_s) } else { String::new() },
                             case.order,
                             got.len(),
                             err.as_ref().map(|e| format!(", then its read failed: {e}")).unwrap_or_default()
@@ -726,6 +767,8 @@ impl Family for SrvFinFam {
         out.class_if(case.up >= 70_000 || case.down >= 70_000, "data-in-flight>64KiB");
         out.class_if(case.by_session_close, "client-ends-by-session-close");
         out.class_if(case.early_fin && case.order == SrvOrder::ClientFirst && !case.by_session_close, "end-arrives-while-the-server-dials");
+        out.class_if(case.quiet_s >= 30, ">=30s-of-silence-in-mid-transfer");
+        out.class_if(case.quiet_s > 0 && case.quiet_s < 30, "<30s-of-silence-in-mid-transfer");
         out.class(match case.order {
             SrvOrder::TargetHalfCloseThenClient => "target-half-close-then-client-fin",
             SrvOrder::ClientFirst => "client-fin-first",
@@ -966,6 +1009,11 @@ pub struct BadAuthCase {
     /// complete right preamble and session: the first 32 bytes received were not the hash
     #[serde(default)]
     pub junk_first: Option<u8>,
+    /// n > 0: the case runs against a server of its own that has first turned away n connections (wrong
+    /// hash, half a hash, TLS without a byte, a bare TCP probe - in groups of eight at a time): what
+    /// the server has seen before must not change who gets a session
+    #[serde(default)]
+    pub crowd_before: u16,
 }
 
 const ODD_PASSWORDS: [&str; 5] = ["  correct horse ", "hunter2\n", "\tTabbed Pass\r\n", "   ", "MiXeD case"];
@@ -991,20 +1039,25 @@ impl Family for BadAuthFam {
         // an unfinished preamble (nothing at all / half a hash / padding not completed), a long silence,
         // then a complete session behind it
         vec![
-            BadAuthCase { flip_bit: None, declared: 30, truncate: Some(0), one_by_one: false, pause_s: 6, odd_password: None, split_pause: None, junk_first: None },
-            BadAuthCase { flip_bit: None, declared: 30, truncate: Some(16000), one_by_one: false, pause_s: 6, odd_password: None, split_pause: None, junk_first: None },
-            BadAuthCase { flip_bit: None, declared: 30, truncate: Some(60000), one_by_one: false, pause_s: 6, odd_password: None, split_pause: None, junk_first: None },
+            BadAuthCase { flip_bit: None, declared: 30, truncate: Some(0), one_by_one: false, pause_s: 6, odd_password: None, split_pause: None, junk_first: None, crowd_before: 0 },
+            BadAuthCase { flip_bit: None, declared: 30, truncate: Some(16000), one_by_one: false, pause_s: 6, odd_password: None, split_pause: None, junk_first: None, crowd_before: 0 },
+            BadAuthCase { flip_bit: None, declared: 30, truncate: Some(60000), one_by_one: false, pause_s: 6, odd_password: None, split_pause: None, junk_first: None, crowd_before: 0 },
             // hashes of related passwords: the trimmed form of a password configured with blanks around it
-            BadAuthCase { flip_bit: None, declared: 30, truncate: None, one_by_one: false, pause_s: 0, odd_password: Some((0, 1)), split_pause: None, junk_first: None },
-            BadAuthCase { flip_bit: None, declared: 30, truncate: None, one_by_one: false, pause_s: 0, odd_password: Some((1, 1)), split_pause: None, junk_first: None },
-            BadAuthCase { flip_bit: None, declared: 30, truncate: None, one_by_one: false, pause_s: 0, odd_password: Some((3, 1)), split_pause: None, junk_first: None },
-            BadAuthCase { flip_bit: None, declared: 30, truncate: None, one_by_one: false, pause_s: 0, odd_password: Some((1, 0)), split_pause: None, junk_first: None },
+            BadAuthCase { flip_bit: None, declared: 30, truncate: None, one_by_one: false, pause_s: 0, odd_password: Some((0, 1)), split_pause: None, junk_first: None, crowd_before: 0 },
+            BadAuthCase { flip_bit: None, declared: 30, truncate: None, one_by_one: false, pause_s: 0, odd_password: Some((1, 1)), split_pause: None, junk_first: None, crowd_before: 0 },
+            BadAuthCase { flip_bit: None, declared: 30, truncate: None, one_by_one: false, pause_s: 0, odd_password: Some((3, 1)), split_pause: None, junk_first: None, crowd_before: 0 },
+            BadAuthCase { flip_bit: None, declared: 30, truncate: None, one_by_one: false, pause_s: 0, odd_password: Some((1, 0)), split_pause: None, junk_first: None, crowd_before: 0 },
             // a right preamble in two slow pieces (cut inside the hash / inside the padding) is still right
-            BadAuthCase { flip_bit: None, declared: 30, truncate: None, one_by_one: false, pause_s: 0, odd_password: None, split_pause: Some((16000, 12)), junk_first: None },
-            BadAuthCase { flip_bit: None, declared: 300, truncate: None, one_by_one: false, pause_s: 0, odd_password: None, split_pause: Some((40000, 12)), junk_first: None },
+            BadAuthCase { flip_bit: None, declared: 30, truncate: None, one_by_one: false, pause_s: 0, odd_password: None, split_pause: Some((16000, 12)), junk_first: None, crowd_before: 0 },
+            BadAuthCase { flip_bit: None, declared: 300, truncate: None, one_by_one: false, pause_s: 0, odd_password: None, split_pause: Some((40000, 12)), junk_first: None, crowd_before: 0 },
             // junk, a long pause, then a right preamble: what came first was not the hash
-            BadAuthCase { flip_bit: None, declared: 30, truncate: None, one_by_one: false, pause_s: 0, odd_password: None, split_pause: None, junk_first: Some(5) },
-            BadAuthCase { flip_bit: None, declared: 30, truncate: None, one_by_one: false, pause_s: 0, odd_password: None, split_pause: None, junk_first: Some(31) },
+            BadAuthCase { flip_bit: None, declared: 30, truncate: None, one_by_one: false, pause_s: 0, odd_password: None, split_pause: None, junk_first: Some(5), crowd_before: 0 },
+            BadAuthCase { flip_bit: None, declared: 30, truncate: None, one_by_one: false, pause_s: 0, odd_password: None, split_pause: None, junk_first: Some(31), crowd_before: 0 },
+            // a server that has turned away 140 / 300 connections still admits the holder of the password
+            BadAuthCase { flip_bit: None, declared: 30, truncate: None, one_by_one: false, pause_s: 0, odd_password: None, split_pause: None, junk_first: None, crowd_before: 140 },
+            BadAuthCase { flip_bit: None, declared: 0, truncate: None, one_by_one: true, pause_s: 0, odd_password: None, split_pause: None, junk_first: None, crowd_before: 300 },
+            // ... and still turns away the next one
+            BadAuthCase { flip_bit: Some(255), declared: 30, truncate: None, one_by_one: false, pause_s: 0, odd_password: None, split_pause: None, junk_first: None, crowd_before: 140 },
         ]
     }
     fn strategy(&self, tier: Tier) -> BoxedStrategy<BadAuthCase> {
@@ -1013,12 +1066,16 @@ impl Family for BadAuthFam {
         let slow = if tier == Tier::Thorough { 0.06 } else { 0.02 };
         let split = proptest::option::weighted(slow, (any::<u16>(), if tier == Tier::Thorough { prop_oneof![Just(3u8), Just(12), Just(25)].boxed() } else { prop_oneof![Just(3u8), Just(12)].boxed() }));
         let junk = if tier == Tier::Thorough { proptest::option::weighted(0.03, 1u8..32).boxed() } else { Just(None::<u8>).boxed() };
-        (proptest::option::weighted(0.6, any::<u8>()), prop_oneof![Just(0u16), Just(1), Just(30), Just(255), Just(256), Just(4000), Just(65535)], proptest::option::weighted(0.25, any::<u16>()), any::<bool>(), pause, odd, split, junk)
-            .prop_map(|(flip_bit, declared, truncate, one_by_one, pause_s, odd_password, split_pause, junk_first)| {
-                if junk_first.is_some() {
-                    BadAuthCase { flip_bit: None, declared, truncate: None, one_by_one: false, pause_s: 0, odd_password: None, split_pause: None, junk_first }
+        let crowd = if tier == Tier::Thorough { prop_oneof![60 => Just(0u16), 1 => Just(20u16), 1 => Just(140), 1 => Just(300), 1 => Just(700)].boxed() } else { prop_oneof![100 => Just(0u16), 1 => Just(20u16), 1 => Just(140)].boxed() };
+        (proptest::option::weighted(0.6, any::<u8>()), prop_oneof![Just(0u16), Just(1), Just(30), Just(255), Just(256), Just(4000), Just(65535)], proptest::option::weighted(0.25, any::<u16>()), any::<bool>(), pause, odd, split, junk, crowd)
+            .prop_map(|(flip_bit, declared, truncate, one_by_one, pause_s, odd_password, split_pause, junk_first, crowd_before)| {
+                if crowd_before > 0 {
+                    // mostly followed by a right preamble (three in four)
+                    BadAuthCase { flip_bit: flip_bit.filter(|b| b % 4 == 0), declared, truncate: None, one_by_one, pause_s: 0, odd_password: None, split_pause: None, junk_first: None, crowd_before }
+                } else if junk_first.is_some() {
+                    BadAuthCase { flip_bit: None, declared, truncate: None, one_by_one: false, pause_s: 0, odd_password: None, split_pause: None, junk_first, crowd_before: 0 }
                 } else {
-                    BadAuthCase { flip_bit, declared, truncate, one_by_one, pause_s, odd_password, split_pause, junk_first: None }
+                    BadAuthCase { flip_bit, declared, truncate, one_by_one, pause_s, odd_password, split_pause, junk_first: None, crowd_before: 0 }
                 }
             })
             .boxed()
@@ -1035,6 +1092,7 @@ impl Family for BadAuthFam {
                 let target = TcpTarget::start(IpAddr::V4(worker_ip_n(33)), TargetMode::Echo).await?;
                 // the server: the world's, or one of its own configured with an odd password
                 let (server, configured, presented) = match case.odd_password {
+                    None if case.crowd_before > 0 => (start_real_server_with(anytls_rs::padding::DEFAULT_PADDING_SCHEME, PASSWORD).await?, PASSWORD.to_string(), PASSWORD.to_string()),
                     None => (w.server, PASSWORD.to_string(), PASSWORD.to_string()),
                     Some((k, how)) => {
                         let configured = ODD_PASSWORDS[k as usize % ODD_PASSWORDS.len()].to_string();
@@ -1058,7 +1116,63 @@ impl Family for BadAuthFam {
                 // What becomes of such a connection is not judged (when the pieces happen to line up on a
                 // frame boundary a session results, legitimately).
                 let unjudged = case.flip_bit.is_none() && presented == configured && !complete && pre.len() >= 32;
-                let mut rc_ = RefClient::connect(server).await?;
+                if case.crowd_before > 0 {
+                    // connections the server turns away (or that go away by themselves), eight at a time
+                    let hash = ref_hash(&configured);
+                    let mut k = 0u16;
+                    while k < case.crowd_before {
+                        let mut hs = Vec::new();
+                        for j in k..(k + 8).min(case.crowd_before) {
+                            let mut wrong = ref_preamble(&configured, 30);
+                            wrong[(j % 32) as usize] ^= 1 << (j % 8);
+                            let half = hash[..16].to_vec();
+                            hs.push(tokio::spawn(async move {
+                                match j % 4 {
+                                    0 => {
+                                        if let Ok(mut c) = RefClient::connect(server).await {
+                                            let _ = c.send_raw(&wrong).await;
+                                            let _ = c.drain(2000).await;
+                                        }
+                                    }
+                                    1 => {
+                                        if let Ok(mut c) = RefClient::connect(server).await {
+                                            let _ = c.send_raw(&half).await;
+                                            let _ = c.tls.shutdown().await;
+                                            let _ = c.drain(2000).await;
+                                        }
+                                    }
+                                    2 => {
+                                        if let Ok(c) = RefClient::connect(server).await {
+                                            drop(c);
+                                        }
+                                    }
+                                    _ => {
+                                        if let Ok(t) = tokio::net::TcpStream::connect(server).await {
+                                            drop(t);
+                                        }
+                                    }
+                                }
+                            }));
+                        }
+                        for h in hs {
+                            let _ = h.await;
+                        }
+                        k += 8;
+                    }
+                    tokio::time::sleep(Duration::from_millis(100)).await;
+                }
+                let mut rc_ = match RefClient::connect(server).await {
+                    Ok(c) => c,
+                    Err(e) if case.crowd_before > 0 => {
+                        // the server owes everyone a TLS handshake, whatever it has seen before
+                        tokio::time::sleep(Duration::from_millis(300)).await;
+                        match RefClient::connect(server).await {
+                            Ok(c) => c,
+                            Err(_) => return Err(Fail::plain("C06.e2e-pos", format!("after {} connections that the server turned away, the next connection does not even get its TLS handshake ({}): a peer presenting the right hash gets no session", case.crowd_before, e.detail))),
+                        }
+                    }
+                    Err(e) => return Err(e),
+                };
                 if let Some(n) = case.junk_first {
                     // junk that is not the beginning of the hash, a long pause, then everything right
                     let hash = ref_hash(&configured);
@@ -1129,12 +1243,16 @@ impl Family for BadAuthFam {
         });
         let accepted = match r {
             Ok(a) => a,
-            Err(f) => {
+            Err(mut f) => {
                 reset_world();
+                if case.crowd_before > 0 && f.oracle != "INFRA" {
+                    f.detail = format!("{} [after {} connections turned away by the same server]", f.detail, case.crowd_before);
+                }
                 return Err(f);
             }
         };
-        out.nt(!accepted || case.declared >= 256);
+        out.nt(!accepted || case.declared >= 256 || case.crowd_before > 0);
+        out.class_if(case.crowd_before >= 128, ">=128-connections-turned-away-before");
         out.class_if(accepted, "accepted");
         out.class_if(case.flip_bit.is_some(), "one-bit-off");
         out.class_if(case.truncate.is_some(), "truncated");
